@@ -19,10 +19,16 @@ EDITS = [
  ('xor', 'air/src/execution_step/instructions/xor.rs', 'if e.is_catchable()', 'if e.is_catchable() && true'),
  ('version', 'air/src/preparation_step/preparation.rs', 'if &versions.interpreter_version < super::min_supported_version() {', 'let min_version = super::min_supported_version();\n    if &versions.interpreter_version < min_version {'),
  ('call_verifier', 'air/src/execution_step/instructions/call/verifier.rs', 'if expected_argument_hash != stored_argument_hash {', 'if stored_argument_hash != expected_argument_hash {'),
+ ('multisubset', 'crates/air-lib/interpreter-data/src/interpreter_data/verification.rs', "    let mut count_map = HashMap::<_, usize>::new();", "    let mut count_map = HashMap::<_, usize>::new();\n    let _len = cids.len();"),
+ ('cid_state', 'air/src/execution_step/execution_context/cid_state.rs', 'let fake_trace_pos = TracePos::default();\n        Ok(ValueAggregate::new(\n            result,\n            tetraplet,\n            fake_trace_pos,', 'let no_trace_pos = TracePos::default();\n        Ok(ValueAggregate::new(\n            result,\n            tetraplet,\n            no_trace_pos,'),
+ ('cid_record_sign', 'crates/air-lib/interpreter-signatures/src/trackers.rs', 'let serialized_cids = SaltedData::new(&cids, salt).serialize();\n    keypair.sign(&serialized_cids)', 'let bytes = SaltedData::new(&cids, salt).serialize();\n    keypair.sign(&bytes)'),
  ('misc_c01', 'crates/air-lib/trace-handler/src/data_keeper/merge_ctx.rs', 'state => Err(KeeperError::NoStreamState { state: state.clone() }),', 'other => Err(KeeperError::NoStreamState { state: other.clone() }),'),
 ]
 bad = 0
+ONLY = os.environ.get('BENIGN_ONLY', '').split()
 for e in EDITS:
+    if ONLY and e[0] not in ONLY:
+        continue
     unit, f, a, b = e[:4]
     count = -1 if len(e) > 4 else 1
     p = os.path.join(root, f)
